@@ -28,42 +28,50 @@ Proof.
   intros d Hd Hx. unfold entitled, item_locked in He. rewrite (Hok d x Hd Hx) in He. apply negb_false_iff in He. exact He.
 Qed.
 
-(* F05: parent shared with everyone and scanned, nested directory then shared with friends only *)
 Definition u1 : str := c [117;49].
 Definition w_song := c [100;101;101;112;32;115;111;110;103].
 Definition ops_f05 : list op :=
   [Add [w_P] (c [97]) Everyone []; Scan [w_P] [([w_P; w_C; w_song], 5%N)]; Add [w_P; w_C] (c [98]) Friends []].
 Definition cfg0 : cfg := mkCfg [] [] [] [] 100 true.
 
-Lemma visible_entitled_refuted : exists ops c user qs x d,
-  In x (fst (query_split (run ops) c user qs)) /\ In d (listed (run ops)) /\ In x (ditems d) /\
-  dir_locked (friends c) d user = true.
+(* with the repaired code the owner-pointer invariant holds after every operation sequence *)
+Lemma owner_ok_run : forall ops, ops_ok ops -> owner_ok (run ops).
+Proof. intros ops OK d x Hd Hx. apply (owner_pointer ops d x OK Hd Hx). Qed.
+
+Lemma visible_entitled_run : forall ops c user qs x, ops_ok ops -> user <> [] ->
+  In x (fst (query_split (run ops) c user qs)) ->
+  (exists d, In d (listed (run ops)) /\ In x (ditems d)) /\ holder_permits (run ops) c user x.
 Proof.
-  exists ops_f05, cfg0, u1, (c [100;101;101;112]), (mkItem 0 [w_P] [w_C] w_song 5%N),
-         (mkDir 1 [w_P; w_C] (c [98]) Friends [] [mkItem 0 [w_P] [w_C] w_song 5%N]).
-  split; [vm_compute; left; reflexivity|]. split; [vm_compute; right; left; reflexivity|].
-  split; [left; reflexivity|]. vm_compute. reflexivity.
+  intros ops c0 user qs x OK Hu H. split.
+  - assert (Hr : In x (query_items (run ops) (parse qs) (phrases c0) (max_results c0))) by (apply (split_sub (run ops) c0 user); left; exact H).
+    apply query_sound in Hr. destruct Hr as [Hi _]. apply indexed_listed in Hi. unfold listed_items in Hi.
+    apply in_flat_map in Hi. exact Hi.
+  - apply (visible_entitled (run ops) c0 user _ x (owner_ok_run ops OK) Hu H).
+Qed.
+
+Lemma locked_not_entitled_run : forall ops c user qs x, ops_ok ops ->
+  In x (snd (query_split (run ops) c user qs)) ->
+  (exists d, In d (listed (run ops)) /\ In x (ditems d)) /\ holder_locks (run ops) c user x.
+Proof.
+  intros ops c0 user qs x OK H. split.
+  - assert (Hr : In x (query_items (run ops) (parse qs) (phrases c0) (max_results c0))) by (apply (split_sub (run ops) c0 user); right; exact H).
+    apply query_sound in Hr. destruct Hr as [Hi _]. apply indexed_listed in Hi. unfold listed_items in Hi.
+    apply in_flat_map in Hi. exact Hi.
+  - apply (locked_not_entitled (run ops) c0 user _ x (owner_ok_run ops OK) H).
 Qed.
 
 (* ------------------------------------------------------------------ excluded phrases *)
 
-Lemma excluded_phrases_partial : forall s c user qs x ph,
+Lemma excluded_phrases : forall s c user qs x ph,
   In x (fst (query_split s c user qs)) \/ In x (snd (query_split s c user qs)) ->
-  In ph (phrases c) -> substring ph (lower_s (qpath x)) = false.
+  In ph (phrases c) -> substring (lower_s ph) (lower_s (qpath x)) = false.
 Proof.
-  intros s c user qs x ph H Hp. unfold query_split in H. apply split_sub in H.
+  intros s c0 user qs x ph H Hp. unfold query_split in H. apply split_sub in H.
   apply query_sound in H. destruct H as [_ [_ H]]. unfold phrase_free in H. rewrite forallb_forall in H.
   specialize (H ph Hp). apply negb_true_iff in H. exact H.
 Qed.
 
 Definition w_SING := c [83;73;78;71].
-Lemma excluded_phrases_refuted : exists ops c user qs x ph,
-  In x (fst (query_split (run ops) c user qs)) /\ In ph (phrases c) /\
-  substring (lower_s ph) (lower_s (qpath x)) = true.
-Proof.
-  exists ops_f04, (mkCfg [] [] [] [w_SING] 100 true), u1, (c [115;105;110;103]), (mkItem 0 [w_d] [] w_sing 5%N), w_SING.
-  split; [vm_compute; left; reflexivity|]. split; [left; reflexivity|]. vm_compute. reflexivity.
-Qed.
 
 (* ------------------------------------------------------------------ search gate *)
 
